@@ -432,8 +432,16 @@ func (st *StateDB) GetWithdrawQueue() *WithdrawQueue {
 func (st *StateDB) RemoveWithdrawRecords(index []int) bool {
 	queue, _ := st.getWithdrawQueue()
 	removedRecords := queue.RemoveRecords(index)
-	for _, record := range removedRecords {
-		st.validatorJournal.append(&validatorDelWithdrawChange{address: &record.Validator, prev: record})
+	for i, record := range removedRecords {
+		// position the record has to be put back to when the entries are reverted (in reverse
+		// order): its old index minus the removed records that preceded it
+		pos := index[i]
+		for _, other := range index {
+			if other < index[i] {
+				pos--
+			}
+		}
+		st.validatorJournal.append(&validatorDelWithdrawChange{address: &record.Validator, prev: record, pos: pos})
 	}
 	return true
 }
